@@ -11,6 +11,7 @@ package main
 import (
 	"bufio"
 	"bytes"
+	"context"
 	"encoding/json"
 	"fmt"
 	"io"
@@ -25,6 +26,7 @@ import (
 	"github.com/marekgalovic/anndb/index"
 	amath "github.com/marekgalovic/anndb/math"
 	"github.com/marekgalovic/anndb/storage"
+	uuid "github.com/satori/go.uuid"
 	"verifharness/internal/hx"
 )
 
@@ -243,6 +245,11 @@ func main() {
 		ml, _ := strconv.Atoi(os.Args[4])
 		seed, _ := strconv.ParseInt(os.Args[5], 10, 64)
 		random(loadCfg(os.Args[2]), n, ml, seed, os.Args[6], os.Args[7])
+	case "recall":
+		n, _ := strconv.Atoi(os.Args[2])
+		dim, _ := strconv.Atoi(os.Args[3])
+		seed, _ := strconv.ParseInt(os.Args[5], 10, 64)
+		recall(n, dim, os.Args[4], seed, os.Args[6])
 	case "streams":
 		n, _ := strconv.Atoi(os.Args[3])
 		seed, _ := strconv.ParseInt(os.Args[4], 10, 64)
@@ -490,6 +497,63 @@ func alphabet(c Cfg, rng *rand.Rand, metas []hx.Meta, hl, nbatch int) []hx.Op {
 		ops = append(ops, o)
 	}
 	return ops
+}
+
+// ------------------------------------------------------------------ recall (C07, clause 2: a measurement)
+
+// recall: n random vectors inserted with the index's own level distribution under default
+// parameters; 200 random queries; hits = how many of the exact 10 nearest the index returned.
+func recall(n, dim int, metric string, seed int64, out string) {
+	rng := rand.New(rand.NewSource(seed))
+	sp := hx.NewSpace(metric)
+	idx := index.NewHnsw(uint(dim), sp)
+	vecs := make([]amath.Vector, n)
+	for i := range vecs {
+		v := make(amath.Vector, dim)
+		for j := range v {
+			v[j] = float32(rng.NormFloat64())
+		}
+		vecs[i] = v
+		var u uuid.UUID
+		u[0], u[12], u[13], u[14], u[15] = 0x70, byte(i>>24), byte(i>>16), byte(i>>8), byte(i)
+		if err := idx.Insert(u, v, nil, idx.RandomLevel()); err != nil {
+			panic(err)
+		}
+	}
+	const k, nq = 10, 200
+	hits := 0
+	for q := 0; q < nq; q++ {
+		qv := make(amath.Vector, dim)
+		for j := range qv {
+			qv[j] = float32(rng.NormFloat64())
+		}
+		type pair struct {
+			i int
+			d float32
+		}
+		all := make([]pair, n)
+		for i := range vecs {
+			all[i] = pair{i, sp.Distance(qv, vecs[i])}
+		}
+		sort.Slice(all, func(a, b int) bool { return all[a].d < all[b].d })
+		want := map[int]bool{}
+		for _, p := range all[:k] {
+			want[p.i] = true
+		}
+		res, err := idx.Search(context.Background(), qv, k)
+		if err != nil {
+			panic(err)
+		}
+		for _, it := range res {
+			i := int(it.Id[12])<<24 | int(it.Id[13])<<16 | int(it.Id[14])<<8 | int(it.Id[15])
+			if want[i] {
+				hits++
+			}
+		}
+	}
+	f, _ := os.Create(out)
+	defer f.Close()
+	json.NewEncoder(f).Encode(map[string]interface{}{"ev": "recall", "n": n, "dim": dim, "metric": metric, "k": k, "queries": nq, "hits": hits})
 }
 
 // ------------------------------------------------------------------ streams (C08)
